@@ -249,7 +249,18 @@ func RandInt31n(n int32) int32 { return int32(RandInt63() % int64(n)) }
 
 // CloudClient is what credential discovery hands to the agent: a plain client
 // over SimNet (no OAuth, not on GCE). The harness may replace the factory.
-var CloudClient = func() *http.Client { return &http.Client{Transport: NewTransport()} }
+var CloudClient = func() *http.Client { return &http.Client{Transport: cloudRoundTripper{}} }
+
+// cloudRoundTripper stands for the credential-adding transport of the real
+// client (oauth2.Transport with a nil base): it sends every request through
+// http.DefaultTransport, so the agent's connections to the proxy share the
+// connection pool and its settings with everything else in the process that
+// uses the default transport (the agent's reverse proxy towards the backend).
+type cloudRoundTripper struct{}
+
+func (cloudRoundTripper) RoundTrip(r *http.Request) (*http.Response, error) {
+	return http.DefaultTransport.RoundTrip(r)
+}
 
 type SDKConfig struct{}
 
